@@ -106,7 +106,7 @@ def r07_2_3(ctx: Ctx):
     Bf = e.radix_field()
     B = attr(selfv, Bf)
     ex = e.explorer(unroll=2)
-    heap = {(key_of(selfv), 'numberOfFloatVariables'): RF.const(0)}     # coordinates loops collapse: levels only
+    heap = {(key_of(selfv), e.dim_field): RF.const(0)}     # coordinates loops collapse: levels only
     n_levels = 0
     end_lit = Lit.cmp('==', x, RF.const(1))
     for p in C.normal_paths(ex.explore(fn, heap=heap)):
@@ -159,8 +159,22 @@ def r07_2_3(ctx: Ctx):
     vals = {}
     selfk = key_of(var(init.param_names[0]))
     n_loops = set()
-    for p in C.normal_paths(exi.explore(init)):
-        nval = p.state.heap.get((selfk, 'numberOfFloatVariables'))
+    init_paths = C.normal_paths(exi.explore(init))
+    # the doubling loop: the loop inside whose trips the radix is stored (other loops over the coordinates - filling
+    # per-coordinate coefficient lists, say - do not count)
+    radix_loops = set()
+    for p in init_paths:
+        open_loops = []
+        for ev in p.events:
+            if ev.kind == 'iter':
+                if id(ev.node) not in open_loops:
+                    open_loops.append(id(ev.node))
+            elif ev.kind == 'loopexit' and id(ev.node) in open_loops:
+                open_loops.remove(id(ev.node))
+            elif ev.kind == 'store' and ev.d['tkind'] == 'attr' and ev.d['field'] == Bf and open_loops:
+                radix_loops.add(open_loops[-1])
+    for p in init_paths:
+        nval = p.state.heap.get((selfk, e.dim_field))
         nk = key_of(nval) if nval is not None else None
 
         def over_n(ev) -> bool:
@@ -172,7 +186,8 @@ def r07_2_3(ctx: Ctx):
             if len(src) == 2:
                 return src[1] == nk
             return len(src) == 3 and src[2] == nk and src[1] == key_of(RF.const(0))
-        its = [ev for ev in p.events if ev.kind == 'iter' and over_n(ev)]
+        its = [ev for ev in p.events if ev.kind == 'iter' and over_n(ev) and
+               (id(ev.node) in radix_loops or not radix_loops)]
         n_loops |= {id(ev.node) for ev in its}
         k = len(its)
         v = p.state.heap.get((selfk, Bf))
@@ -261,7 +276,7 @@ def r07_6(ctx: Ctx):
                                     out.add(nm.id)
             return out
         tainted = taint_of(raw)
-        dim_attrs = {'numberOfFloatVariables'}
+        dim_attrs = {'numberOfFloatVariables', e.dim_field}
         dim_names = taint_of(dim_attrs, through_int=True)
         for x in ast.walk(f.node):
             base = expo = None
